@@ -7,6 +7,9 @@ R10.3 no effect is lost while a deserialiser rebuilds an object
 
 Added in build round 2 (see DESIGN.md section 3, round-2 table):
 R10.5 pickle protocol pairs agree: for every class defining both __getstate__ and __setstate__, the keys __setstate__ requires are written by __getstate__ ...
+
+Added later in build rounds 2-3 (see DESIGN.md section 3, round-2/3 table):
+R10.6 state that records an object's history is part of its serialised form: for each class of the curated history-state table (SeqsData.reversed_seqs, ...
 """
 
 from __future__ import annotations
